@@ -1,5 +1,5 @@
 """C04 -- macro expansion preserves the meaning of the program."""
-from .. import sx, gen, lib, meaning as M, monitors, minimise
+from .. import sx, gen, lib, meaning as M, monitors, minimise, apiroute
 from . import builder_route
 from .common import header_diff, native_names, prog_features, sig, case_prog
 
@@ -11,7 +11,7 @@ RULE = ("random programs with 0-4 macros (call DAG among earlier macros, paramet
         "input IR object; non-trivial = the program contains at least one macro call; distinct = S-expression + flags")
 ASSUMPTIONS = ["reference substitution semantics in vf/meaning.py (written from the Jaqal rules, shares no code with expand_macros.py)"]
 TIERS = {"quick": {"shards": 8, "budget_s": 60}, "thorough": {"shards": 16, "budget_s": 300}}
-REQUIRE = {"circuits-built-through-CircuitBuilder": 1000, "calls-after-earlier-call-on-same-object": 1000, "calls": 200, "nested-macro-programs": 20, "ctx:loop": 10, "ctx:par": 10, "ctx:sub": 5, "wrong-arity-probes": 20,
+REQUIRE = {"hand-made-statements-listing-names-in-another-order": 3000, "circuits-built-through-CircuitBuilder": 1000, "calls-after-earlier-call-on-same-object": 1000, "calls": 200, "nested-macro-programs": 20, "ctx:loop": 10, "ctx:par": 10, "ctx:sub": 5, "wrong-arity-probes": 20,
            "preserve:True": 50, "preserve:False": 50}
 
 
@@ -32,7 +32,11 @@ def gate_names(block):
     return out
 
 
+STATS = {}
+
+
 def judge(case):
+    STATS.clear()
     prog = case_prog(case)
     preserve = bool(case.get("preserve"))
     if not sx.legal_nesting(prog):
@@ -48,6 +52,14 @@ def judge(case):
         if ob[0] != "ok":
             return "skipped:builder-route-rejected:" + ob[1], []
         c = ob[1][0]
+    if case.get("raw") is not None:
+        # the same circuit with every statement re-made by hand: GateStatement(definition, {name: value}) with the names
+        # in another order than the declaration
+        oa = lib.outcome(apiroute.rebuild_with_keyword_calls, c, case["raw"], True)
+        if oa[0] != "ok":
+            return "inconclusive:cannot-rebuild:%s" % (oa[2],), []
+        c = oa[1][0]
+        STATS["reordered"] = oa[1][1]["reordered"]
     try:
         kc = M.core_from_ir(c)
         expected = M.meaning(kc, expand_macros=True, expand_a1=True)
@@ -166,6 +178,7 @@ def process(ctx, case, seen, probe=True):
             rec.inconc(st)
         return
     rec.count("judged")
+    rec.count("hand-made-statements-listing-names-in-another-order", STATS.get("reordered", 0))
     count_contexts(rec, prog, macros)
     nested = any(g[0] == "gate" and g[1] in macros for s in prog[1:] if s[0] == "macro" for g in sx.walk(s[-1]))
     if nested:
@@ -181,6 +194,8 @@ def process(ctx, case, seen, probe=True):
             base["bseed"] = case["bseed"]
         if case.get("prior") and clause not in _clauses(dict(base, prog=prog)):
             base["prior"] = True
+        if case.get("raw") is not None and clause not in _clauses(dict(base, prog=prog)):
+            base["raw"] = case["raw"]
         small = minimise.minimise(prog, lambda p: clause in _clauses(dict(base, prog=p)), budget=250)
         small_case = dict(base, prog=small)
         d2 = [f for f in judge(small_case)[1] if f[0] == clause]
@@ -189,6 +204,8 @@ def process(ctx, case, seen, probe=True):
             feats.add("after-earlier-call-on-same-object")
         if base.get("bseed") is not None:
             feats.add("circuit-built-through-CircuitBuilder")
+        if base.get("raw") is not None:
+            feats.add("statements-made-with-the-GateStatement-constructor")
         rec.violation(sig("C04", clause, feats), d2[0][1] if d2 else detail, small_case)
     if probe and macros:
         o = lib.outcome(lib.parse, sx.to_text(prog))
@@ -217,6 +234,8 @@ def shard(ctx):
         if rng.random() < 0.25:
             case["bseed"] = rng.randrange(1 << 30)
             rec.count("circuits-built-through-CircuitBuilder")
+        elif rng.random() < 0.2:
+            case["raw"] = rng.randrange(1 << 30)
         process(ctx, case, seen, probe=(i % 10 == 0))
         if i <= 3:
             rec.sample({"preserve": case["preserve"], "text": sx.to_text(prog)})
